@@ -468,6 +468,19 @@ impl Qcow2Header {
         let end = start + ((rc_blk.1 as usize) << cluster_bits);
         let mut ref_b = RefBlock::new(refcount_order, end - start, Some(rc_blk.0));
 
+        // Only one refcount block is formatted, and it has to hold the refcount
+        // of the header, itself, refcount table and l1 table.
+        let meta_clusters = 1 + rc_table.1 as usize + rc_blk.1 as usize + l1_table.1 as usize;
+        if meta_clusters > ref_b.entries() {
+            return Err(format!(
+                "metadata of this virtual size needs {} clusters, but one refcount block \
+                 covers {} only -- try increasing the cluster size",
+                meta_clusters,
+                ref_b.entries()
+            )
+            .into());
+        }
+
         //header
         ref_b.increment(0)?;
         assert!(ref_b.get(0).into_plain() == 1);
